@@ -65,7 +65,8 @@ for m in ix.modules.values():
             bound, extra, spreads, too_many = sym.bind_args(e.term, table[key]["params"])
             if extra or spreads or too_many:
                 continue
-            table[key]["sites"].append({"caller": f"{m.name}:{qn}", "args": {p: to_json(canon_ids(t)) for p, t in bound.items()}})
+            table[key]["sites"].append({"caller": f"{m.name}:{qn}", "args": {p: to_json(canon_ids(t)) for p, t in bound.items()},
+                                        "npos": len(e.term[2])})
             n += 1
 table = {k: v for k, v in table.items() if v["sites"] or v.get("recv")}
 dst = os.path.join(os.path.dirname(os.path.dirname(os.path.abspath(__file__))), "sa", "pinned_calls.json")
